@@ -337,7 +337,7 @@ def _strategy():
                 if not free:
                     continue
                 t = pick(free)
-                base = pick(live) if live and i(0, 2) == 0 else None
+                base = pick(live) if live and i(0, 1) == 0 else None
                 body = []
                 props, links = {}, {}
                 for _k in range(i(0, 2)):
@@ -366,7 +366,30 @@ def _strategy():
             T = types[t]
             allp = dict(T['props'])
             alll = dict(T['links'])
-            k = i(0, 24)
+            def inherited(kind):
+                out, todo, seen = {}, list(T['bases']), set()
+                while todo:
+                    b = todo.pop()
+                    if b in seen or b not in types:
+                        continue
+                    seen.add(b)
+                    for n2, v in types[b][kind].items():
+                        out.setdefault(n2, v)
+                    todo.extend(types[b]['bases'])
+                return {n2: v for n2, v in out.items() if n2 not in T[kind]}
+            inh_l = inherited('links')
+            inh_p = inherited('props')
+            with_lp = [ln for ln, L in alll.items() if L.get('lps')]
+            # construction over rejection: re-draw the operation while it has nothing to act on
+            need = {5: allp, 6: alll, 7: allp, 8: allp, 9: alll, 10: alll, 11: alll, 12: with_lp, 13: allp,
+                    15: (allp or alll), 16: len(live) > 1, 17: T['bases'], 19: allp, 20: alll,
+                    22: inh_l, 23: inh_p, 24: with_lp, 25: alll, 26: (allp or alll), 27: (allp or alll)}
+            for _try in range(4):
+                k = i(0, 29)
+                if need.get(k, True):
+                    break
+            if (inh_l or inh_p) and i(0, 3) == 0:
+                k = 22 if (inh_l and (not inh_p or i(0, 1))) else 23
             def subtypes_of(x):
                 out, todo = [], [x]
                 while todo:
@@ -495,6 +518,65 @@ def _strategy():
                     stmts.append(['link-to-computed', f'alter type {t} alter link {ln} using ({expr})'])
                 else:
                     stmts.append(['link-to-stored', f'alter type {t} alter link {ln} reset expression'])
+            elif k == 22 and inh_l:
+                # operations of a subtype on a link it only inherits (its own link table changes)
+                ln = pick(inh_l)
+                c = i(0, 3)
+                if c == 0:
+                    stmts.append(['inh-link-add-linkprop', f'alter type {t} alter link {ln} create property lp{i(0, 1)} -> str'])
+                elif c == 1:
+                    subs = subtypes_of(inh_l[ln].get('tgt')) if inh_l[ln].get('tgt') in types else []
+                    if subs:
+                        st_ = pick(subs)
+                        stmts.append(['inh-link-set-type', f'alter type {t} alter link {ln} set type {st_} using (.{ln}[is {st_}])'])
+                    else:
+                        stmts.append(['inh-link-constraint', f'alter type {t} alter link {ln} create constraint exclusive'])
+                elif c == 2:
+                    stmts.append(['inh-link-drop-owned', f'alter type {t} alter link {ln} drop owned'])
+                else:
+                    stmts.append(['inh-link-set-required', f'alter type {t} alter link {ln} set required using '
+                                  f'((select {inh_l[ln].get("tgt", t)} limit 1))'])
+            elif k == 23 and inh_p:
+                p = pick(inh_p)
+                c = i(0, 2)
+                if c == 0:
+                    stmts.append(['inh-prop-set-required', f"alter type {t} alter property {p} set required using (<str>'1')"])
+                elif c == 1:
+                    stmts.append(['inh-prop-constraint', f'alter type {t} alter property {p} create constraint exclusive'])
+                else:
+                    stmts.append(['inh-prop-drop-owned', f'alter type {t} alter property {p} drop owned'])
+            elif k == 24 and with_lp:
+                ln = pick(with_lp)
+                if i(0, 1):
+                    stmts.append(['linkprop-set-type', f'alter type {t} alter link {ln} alter property lp0 set type int64 '
+                                  f'using (<int64>@lp0)'])
+                else:
+                    stmts.append(['rename-linkprop', f'alter type {t} alter link {ln} alter property lp0 rename to lp1'])
+            elif k == 25 and alll:
+                ln = pick(alll)
+                if i(0, 1):
+                    stmts.append(['link-set-required', f'alter type {t} alter link {ln} set required using '
+                                  f'((select {alll[ln].get("tgt", t)} limit 1))'])
+                else:
+                    stmts.append(['link-set-optional', f'alter type {t} alter link {ln} set optional'])
+            elif k in (26, 27) and (allp or alll):
+                # several storage changes in one ALTER TYPE block
+                subs = []
+                if allp:
+                    p = pick(allp)
+                    subs.append(pick([f'drop property {p}', f'alter property {p} set multi',
+                                      f'alter property {p} rename to {pick(PROPS)}',
+                                      f"alter property {p} using ('c')"]))
+                if alll:
+                    ln = pick(alll)
+                    subs.append(pick([f'drop link {ln}', f'alter link {ln} set multi',
+                                      f'alter link {ln} create property lp{i(0, 1)} -> str',
+                                      f'alter link {ln} rename to {pick(LINKS)}',
+                                      f'alter link {ln} set single using ((select .{ln} limit 1))']))
+                subs.append(f'create {pick(["", "multi "])}property {pick(PROPS)} -> str')
+                if i(0, 1):
+                    subs.reverse()
+                stmts.append(['alter-block', f'alter type {t} {{ ' + '; '.join(subs) + ' }'])
             elif k == 21:
                 stmts.append(['drop-type', f'drop type {t}'])
                 types.pop(t)
@@ -519,7 +601,8 @@ def _strategy():
     return cases()
 
 
-STORAGE_CHANGES = {'link-set-type', 'prop-set-type', 'prop-set-multi', 'prop-set-single', 'link-set-multi', 'link-set-single', 'add-linkprop',
+STORAGE_CHANGES = {'alter-block', 'inh-link-add-linkprop', 'inh-link-set-type', 'inh-link-drop-owned',
+                   'inh-prop-drop-owned', 'linkprop-set-type', 'rename-linkprop', 'link-set-type', 'prop-set-type', 'prop-set-multi', 'prop-set-single', 'link-set-multi', 'link-set-single', 'add-linkprop',
                    'drop-linkprop', 'prop-to-computed', 'prop-to-stored', 'link-to-computed', 'link-to-stored',
                    'add-base', 'drop-base', 'drop-type', 'drop-prop', 'drop-link', 'set-abstract', 'reset-abstract'}
 
